@@ -416,15 +416,16 @@ class Interp:
                 if r.dtype == numpy.float64 and i.dtype == numpy.float64:
                     return numpy.array([r, i], dtype=numpy.float64).view(numpy.complex128)[0]
                 raise Unsupported("complex from mixed parts")
-            if kind == "upcast":
-                dt = NP_UP.get(type(a[0]))
+            if kind in ("upcast", "downcast"):
+                # the target type is a property of the GRAPH (declared type of the operand), not of the
+                # run-time dtype (they differ where Expr.get_type disagrees with NumPy promotion: C08)
+                try:
+                    st = self.np_dtype_of(ops[0].get_type())
+                except Exception as ex:  # noqa: BLE001
+                    raise Unsupported(f"{kind}: operand type") from ex
+                dt = (NP_UP if kind == "upcast" else NP_DOWN).get(st)
                 if dt is None:
-                    raise Unsupported("upcast")
-                return dt(a[0])
-            if kind == "downcast":
-                dt = NP_DOWN.get(type(a[0]))
-                if dt is None:
-                    raise Unsupported("downcast")
+                    raise Unsupported(kind)
                 return dt(a[0])
             f = NP_PRIM.get(kind)
             if f is None:
